@@ -429,6 +429,11 @@ class AttributeCollection(MutableMapping[int, Attribute]):
             return b''
 
         data = data[offset:]
+        if length > len(data):
+            # RFC 7606 section 4: a length which overruns the attribute block is treat-as-withdraw,
+            # never a shorter attribute made of the bytes which happen to be there
+            self.add(TreatAsWithdraw(aid))
+            return b''
         left = data[length:]
         attribute = data[:length]
 
